@@ -105,6 +105,32 @@ Qed.
 Lemma uv_loop_values : forall p, map unescape (uv_loop true p false []) = uv_values p.
 Proof. intros p. unfold uv_values. apply uv_loop_values_gen. reflexivity. Qed.
 
+(* with the second repair (empty items kept) the keys are ALL the values of the list pattern, the empty one included *)
+Lemma uv_loop_all_segs_gen : forall p prevEsc scratch cur,
+  fold_left ustep (rev scratch) ([], false) = (cur, prevEsc) ->
+  map unescape (uv_loop_all p prevEsc scratch) = uv_segs p prevEsc cur.
+Proof.
+  induction p as [|c p IH]; intros prevEsc scratch cur Hst.
+  - cbn [uv_loop_all uv_segs map]. rewrite unescape_fold, Hst. cbn [fst snd]. unfold utrail. rewrite tbl_keeps_trailing.
+    cbn [N.eqb Pos.eqb]. destruct prevEsc; cbn [andb]; [reflexivity | now rewrite app_nil_r].
+  - cbn [uv_loop_all uv_segs].
+    assert (Step : forall st', ustep (cur, prevEsc) c = st' -> fold_left ustep (rev (c :: scratch)) ([], false) = st').
+    { intros st' E. cbn [rev]. rewrite fold_left_app, Hst. cbn [fold_left]. exact E. }
+    destruct prevEsc.
+    + rewrite andb_false_r. cbn [orb]. apply IH. apply Step. reflexivity.
+    + rewrite andb_true_r. cbn [orb].
+      destruct (c =? ch_bsl) eqn:Eb.
+      * apply IH. apply Step. unfold ustep. cbn [fst snd]. now rewrite Eb.
+      * unfold ck_comma, ch_comma. destruct (c =? 44) eqn:Ec; cbn [negb].
+        -- cbn [map]. f_equal.
+           ++ rewrite unescape_fold, Hst. cbn [fst snd]. unfold utrail. cbn. now rewrite app_nil_r.
+           ++ apply IH. reflexivity.
+        -- apply IH. apply Step. unfold ustep. cbn [fst snd]. now rewrite Eb.
+Qed.
+
+Lemma uv_loop_all_segs : forall p, map unescape (uv_loop_all p false []) = uv_segs p false [].
+Proof. intros p. apply uv_loop_all_segs_gen. reflexivity. Qed.
+
 (* ------------------------------------------------------------------ the instance *)
 
 (* the filters of the correspondence run: on the int32 field v of the node's Message (payload 0 = no such field) *)
@@ -143,6 +169,34 @@ Definition pkeys (c : list N) : option (list name) :=
 
 Definition pat_ops : MatchOps :=
   {| clause := list N; clause_eqb := text_eqb; cmatch := pmatch; ckeys := pkeys; cstar := star_text;
+     qfilter := fspec; fmatch := fspec_match |}.
+
+(* the same with both repairs of the key parsing (F52 and F63): every item of a list pattern is a lookup key *)
+Definition pkeys_all (c : list N) : option (list name) :=
+  if is_star c then None
+  else match clause_keys_all (sm_of ere_engine c) with
+       | Some ks => Some (map untbl ks)
+       | None => None
+       end.
+
+Definition pat_ops_all : MatchOps :=
+  {| clause := list N; clause_eqb := text_eqb; cmatch := pmatch; ckeys := pkeys_all; cstar := star_text;
+     qfilter := fspec; fmatch := fspec_match |}.
+
+(* ... and, where a clause has lookup keys, "matches" read off the keys.  On every name that is the number of its own string
+   this is the StringMatcher model again (pmatch_n_agrees below); on the other numbers -- which stand for no node name -- it
+   is what makes the clause law hold of ALL numbers, the form build-C04's invariant proofs (class MatchLaws) ask for. *)
+Fixpoint name_mem (k : name) (l : list name) : bool :=
+  match l with [] => false | x :: r => N.eqb x k || name_mem k r end.
+
+Definition pmatch_n (c : list N) (k : name) : bool :=
+  match pkeys_all c with
+  | Some ks => name_mem k ks
+  | None => pmatch c k
+  end.
+
+Definition pat_ops_n : MatchOps :=
+  {| clause := list N; clause_eqb := text_eqb; cmatch := pmatch_n; ckeys := pkeys_all; cstar := star_text;
      qfilter := fspec; fmatch := fspec_match |}.
 
 End Inst.
@@ -208,6 +262,56 @@ Proof.
     inversion Hk; subst ks. rewrite sm_of_text in Hin. destruct Hin as [E|[]]. subst k. rewrite tbl_untbl. now apply (US c (unescape c) Hun).
 Qed.
 
+(* the canonical names: the number of their own string (the empty string included) *)
+Definition canon (k : name) : Prop := untbl (tbl k) = k.
+
+Lemma uvlist_exact_ere : forall p t, is_uvlist (sm_of ere_engine p) = true ->
+  (matches (sm_of ere_engine p) t = true <-> In t (uv_segs p false [])).
+Proof. intros p t H. unfold sm_of in *. now apply (uvlist_exact ere_engine ere_is_ere p sm_init t). Qed.
+
+Theorem pkeys_all_sound : forall (c : list N) (ks : list name) (k : name),
+  canon k -> pkeys_all untbl c = Some ks -> pmatch tbl c k = true -> In k ks.
+Proof.
+  intros c ks k Hcan Hk Hm. unfold pkeys_all in Hk. unfold pmatch in Hm.
+  destruct (is_star c); [discriminate|].
+  destruct (model_laws ere_engine ere_is_ere) as [US _].
+  unfold clause_keys_all in Hk.
+  destruct (is_uvlist (sm_of ere_engine c)) eqn:Huv.
+  - inversion Hk; subst ks. rewrite sm_of_text, uv_loop_all_segs.
+    rewrite <- Hcan. apply in_map. now apply (uvlist_exact_ere c (tbl k) Huv).
+  - destruct (is_unique (sm_of ere_engine c)) eqn:Hun; [|discriminate].
+    inversion Hk; subst ks. rewrite sm_of_text. left. rewrite <- Hcan. f_equal. symmetry. apply (US c (tbl k) Hun). exact Hm.
+Qed.
+
+Theorem pkeys_all_complete : forall (c : list N) (ks : list name) (k : name),
+  pkeys_all untbl c = Some ks -> In k ks -> pmatch tbl c k = true.
+Proof.
+  intros c ks k Hk Hin. unfold pkeys_all in Hk. unfold pmatch.
+  destruct (is_star c); [reflexivity|].
+  destruct (model_laws ere_engine ere_is_ere) as [US _].
+  unfold clause_keys_all in Hk.
+  destruct (is_uvlist (sm_of ere_engine c)) eqn:Huv.
+  - inversion Hk; subst ks. rewrite sm_of_text, uv_loop_all_segs in Hin. apply in_map_iff in Hin. destruct Hin as [v [E Hv]]. subst k.
+    rewrite tbl_untbl. now apply (uvlist_exact_ere c v Huv).
+  - destruct (is_unique (sm_of ere_engine c)) eqn:Hun; [|discriminate].
+    inversion Hk; subst ks. rewrite sm_of_text in Hin. destruct Hin as [E|[]]. subst k. rewrite tbl_untbl. now apply (US c (unescape c) Hun).
+Qed.
+
+Lemma name_mem_in : forall k l, name_mem k l = true <-> In k l.
+Proof.
+  intros k l. induction l as [|x l IH]; cbn; [split; [discriminate | intros []]|].
+  rewrite orb_true_iff, IH, N.eqb_eq. tauto.
+Qed.
+
+(* on canonical names the law-normalised instance IS the StringMatcher model *)
+Theorem pmatch_n_agrees : forall (c : list N) (k : name), canon k -> pmatch_n tbl untbl c k = pmatch tbl c k.
+Proof.
+  intros c k Hcan. unfold pmatch_n. destruct (pkeys_all untbl c) as [ks|] eqn:Hk; [|reflexivity].
+  apply eq_true_iff_eq. rewrite name_mem_in. split.
+  - now apply (pkeys_all_complete c ks k Hk).
+  - now apply (pkeys_all_sound c ks k Hcan Hk).
+Qed.
+
 End Laws.
 
 Lemma clause_laws_lemma :
@@ -216,6 +320,13 @@ Lemma clause_laws_lemma :
        okname tbl untbl k -> pkeys untbl true c = Some ks -> pmatch tbl c k = true -> In k ks) /\
     (forall (c : list N) (ks : list name) (k : name), pkeys untbl true c = Some ks -> In k ks -> pmatch tbl c k = true).
 Proof. intros tbl untbl H. split; [exact (pkeys_sound tbl untbl) | exact (pkeys_complete tbl untbl H)]. Qed.
+
+Lemma clause_laws_all_lemma :
+  forall (tbl : name -> list N) (untbl : list N -> name), (forall s, tbl (untbl s) = s) ->
+    (forall (c : list N) (ks : list name) (k : name),
+       canon tbl untbl k -> pkeys_all untbl c = Some ks -> pmatch tbl c k = true -> In k ks) /\
+    (forall (c : list N) (ks : list name) (k : name), pkeys_all untbl c = Some ks -> In k ks -> pmatch tbl c k = true).
+Proof. intros tbl untbl H. split; [exact (pkeys_all_sound tbl untbl) | exact (pkeys_all_complete tbl untbl H)]. Qed.
 
 (* F52: with the key parsing as found (escape characters dropped before DoDirectChildLookup unescapes once more) a clause
    reports a lookup key it does not match: the clause  a\\b,c  looks up  ab *)
